@@ -140,7 +140,7 @@ func planFor(i int, rng *rand.Rand, shortLists bool) syncPlan {
 	p.Link = []string{"each-other", "each-other", "each-other", "by-height", "random", "random"}[rng.Intn(6)]
 	// a B that the node drops comes back (a new identity costs a peer nothing) and plays its session again: what the
 	// fetchers of the downloader do to each other while a synchronisation is being aborted is a matter of microseconds
-	p.Returns = []int{4, 8, 12, 16, 24}[rng.Intn(5)]
+	p.Returns = []int{8, 16, 32, 64, 96}[rng.Intn(5)]
 	if p.Step == "on-top" {
 		// B's momentums in ONE import batch with momentums that honest peers deliver: B lists the node's own head (which
 		// the downloader always asks for first; an honest peer delivers it, after a network delay) and puts its own
@@ -380,36 +380,37 @@ func (b *syncB) serve() {
 	topA := uint64(len(s.w.hashA) - 1)
 	searchN := 0
 	// B's replies to the hash fetcher and to the block fetcher of the node are made to arrive TOGETHER where it can: when
-	// its hash list is out, B holds the reply to the next hash request ("no more") until the first block request is there
-	// too (150 ms at most), and answers the two back to back, in either order - the two fetchers of the downloader talk to
-	// each other over channels, and what one of them does while the other is ending is part of what a peer controls
-	var backlog []inMsg
-	pair := func(want uint64) (inMsg, bool) {
-		if len(backlog) == 0 {
-			select {
-			case m2, ok := <-B.in:
-				if ok {
-					backlog = append(backlog, m2)
-				}
-			case <-time.After(150 * time.Millisecond):
-			}
-		}
-		if len(backlog) > 0 && backlog[0].code == want && b.rng.Intn(2) == 0 {
-			m2 := backlog[0]
-			backlog = backlog[1:]
-			return m2, true
-		}
-		return inMsg{}, false
+	// its hash list is out, B holds the reply to the next hash request ("no more hashes") until it is asked for one of its own
+	// momentums (1.5 s at most: the node waits 5 s for hashes), and sends that delivery and the held reply back to back, in
+	// either order - the two fetchers of the downloader talk to each other over channels, and what one of them does while
+	// the other is ending is part of what a peer controls
+	var noMoreDue time.Time // a "no more hashes" is held back until then
+	var noMoreFor uint64
+	sendNoMore := func() {
+		s.note(fmt.Sprintf("hashes-from-%d:no-more", noMoreFor))
+		noMoreDue = time.Time{}
+		b.sendHashes([]types.Hash{})
 	}
-	noMoreSent := false
 	for {
 		var m inMsg
-		if len(backlog) > 0 {
-			m, backlog = backlog[0], backlog[1:]
-		} else {
-			var ok bool
+		var ok bool
+		if noMoreDue.IsZero() {
 			if m, ok = <-B.in; !ok {
 				return
+			}
+		} else {
+			wait := time.Until(noMoreDue)
+			if wait < 0 {
+				wait = 0
+			}
+			select {
+			case m, ok = <-B.in:
+				if !ok {
+					return
+				}
+			case <-time.After(wait):
+				sendNoMore()
+				continue
 			}
 		}
 		b.touch()
@@ -535,15 +536,11 @@ func (b *syncB) serve() {
 					B.sendRaw(baseLen+protocol.BlockHashesMsg, payload, 2*time.Second)
 					continue
 				}
-				if listed { // the hash list is out: no more hashes
-					if m2, ok := pair(protocol.GetBlocksMsg); ok { // the delivery first
-						var asked []types.Hash
-						rlp.DecodeBytes(m2.payload, &asked)
-						b.deliver(asked, topA)
+				if listed { // the hash list is out: no more hashes (held back, see above)
+					if !noMoreDue.IsZero() {
+						sendNoMore()
 					}
-					s.note(fmt.Sprintf("hashes-from-%d:no-more", r.Number))
-					noMoreSent = true
-					b.sendHashes([]types.Hash{})
+					noMoreDue, noMoreFor = time.Now().Add(1500*time.Millisecond), r.Number
 					continue
 				}
 				list := b.hostileHashes(r.Number)
@@ -555,7 +552,6 @@ func (b *syncB) serve() {
 				}
 				s.note(fmt.Sprintf("hashes-from-%d:%d-genuine+self-made-heights-%v", r.Number, len(list)-len(hts), hts))
 				s.progressFromPeer(Tup(append(append([]interface{}{}, s.desc...), "B-lists-after-request-from", U64(r.Number), "self-made-heights", fmt.Sprint(hts), "B-did", fmt.Sprint(s.acts()))...))
-				noMoreSent = false
 				b.mu.Lock()
 				b.listed = true
 				b.nextFrom = r.Number + uint64(len(list))
@@ -567,20 +563,23 @@ func (b *syncB) serve() {
 		case protocol.GetBlockHashesMsg:
 			b.honest(m)
 		case protocol.GetBlocksMsg:
-			b.mu.Lock()
-			listed := b.listed
-			b.mu.Unlock()
-			if listed && !noMoreSent {
-				if m2, ok := pair(protocol.GetBlockHashesFromNumberMsg); ok { // "no more hashes" first
-					var r getBlockHashesFromNumberData
-					rlp.DecodeBytes(m2.payload, &r)
-					s.note(fmt.Sprintf("hashes-from-%d:no-more", r.Number))
-					noMoreSent = true
-					b.sendHashes([]types.Hash{})
-				}
-			}
 			var asked []types.Hash
 			rlp.DecodeBytes(m.payload, &asked)
+			own := false
+			for _, h := range asked {
+				_, mine := b.made[h]
+				own = own || mine
+			}
+			if own && !noMoreDue.IsZero() {
+				if b.rng.Intn(2) == 0 {
+					sendNoMore()
+					b.deliver(asked, topA)
+				} else {
+					b.deliver(asked, topA)
+					sendNoMore()
+				}
+				continue
+			}
 			b.deliver(asked, topA)
 		}
 	}
@@ -883,11 +882,11 @@ wait:
 			// (where the node has to drop B, B waits for it: the hash request timeout is 5 s)
 			expectDrop := atomic.LoadInt32(&b.outOfWin)+atomic.LoadInt32(&b.malformed) > 0
 			switch {
-			case s.B.isClosed() && len(allB) <= plan.Returns && time.Since(t0) < 12*time.Second && s.idleSoon(300*time.Millisecond):
+			case s.B.isClosed() && len(allB) <= plan.Returns && time.Since(t0) < 8*time.Second && s.idleSoon(300*time.Millisecond):
 				// dropped, and the synchronisation with it is over (a B that the message handler drops in the middle of a
 				// synchronisation leaves hashes behind that nobody can deliver: every new peer is asked for them and costs
 				// the node its 9 s block request timeout): B comes back under a new identity and plays the same session again
-				// (for 12 s: a session in which an honest peer is asked for one of B's momentums takes 9 s, not 50 ms; once an honest
+				// (for 8 s: a session in which an honest peer is asked for one of B's momentums takes 9 s, not 50 ms; once an honest
 				// peer has delivered something its reputation puts it first in line and it is asked for the head of the list)
 				time.Sleep(time.Duration(rng.Intn(40)) * time.Millisecond)
 				nb := &syncB{s: s, plan: plan, rng: rand.New(rand.NewSource(rng.Int63())), td: b.td, made: map[types.Hash]*nom.DetailedMomentum{}, deliveredSM: map[types.Hash]bool{}, height: heightOf}
